@@ -326,125 +326,7 @@ func c01Lower(c *Ctx) {
 	// multi-value emitters
 	n := 0
 	for _, e := range emitters(c) {
-		info := e.Info()
-		var rs *ast.RangeStmt
-		ast.Inspect(e.Body, func(m ast.Node) bool {
-			if r, ok := m.(*ast.RangeStmt); ok && core.ExprStr(r.X) == "values" && rs == nil {
-				// only loops that append rules
-				has := false
-				ast.Inspect(r.Body, func(k ast.Node) bool {
-					if ce, ok := k.(*ast.CallExpr); ok {
-						if cal := core.Callee(info, ce); cal != nil && cal.Name() == "appendRule" {
-							has = true
-						}
-					}
-					return true
-				})
-				if has {
-					rs = r
-				}
-			}
-			return true
-		})
-		short := strings.TrimPrefix(e.Name, "control.RoutingMatcherBuilder.")
-		if rs == nil {
-			// single-set emitter: outboundToId(outbound.Name)
-			calls := e.FindCalls(core.ParseRefs("control.RoutingMatcherBuilder.outboundToId"))
-			ok := len(calls) == 1 && core.ExprStr(calls[0].Args[0]) == "outbound.Name"
-			n++
-			c.R.Checkf(rule, "single-set-outbound@"+short, c.pos(e.Pos()), ok, "%s emits one match set carrying the callback's outbound name unchanged", short)
-			continue
-		}
-		eg := e.Graph()
-		var body *cfg.Block
-		heads := map[*cfg.Block]bool{}
-		for _, b := range eg.CFG.Blocks {
-			if b.Stmt == ast.Stmt(rs) {
-				switch b.Kind {
-				case cfg.KindRangeBody:
-					body = b
-				case cfg.KindRangeLoop:
-					heads[b] = true
-				}
-			}
-		}
-		lastPred := core.ExprStr(rs.Key) + " == len(values) - 1"
-		found := false
-		ast.Inspect(rs.Body, func(m ast.Node) bool {
-			if be, ok := m.(*ast.BinaryExpr); ok && core.ExprStr(be) == lastPred {
-				found = true
-			}
-			return true
-		})
-		okAll := found && body != nil
-		detail := ""
-		if okAll {
-			for _, last := range []bool{false, true} {
-				job := &fdt.Job{F: e, Start: core.Point{B: body, I: 0}, StopAt: heads, Inputs: map[string]constant.Value{lastPred: constant.MakeBool(last)},
-					Event: func(nd ast.Node, ev func(ast.Expr) string) string {
-						out := ""
-						ownCalls(nd, func(ce *ast.CallExpr, _ bool) {
-							if cal := core.Callee(info, ce); cal != nil && cal.Name() == "outboundToId" {
-								arg := ce.Args[0]
-								if id, ok := arg.(*ast.Ident); ok {
-									out = "id(" + ev(id) + ")"
-								} else {
-									out = "id(sym:" + core.ExprStr(arg) + ")"
-								}
-							}
-						})
-						return out
-					}}
-				// track the name variable symbolically: record assignments as events instead
-				nameVals := map[string]bool{}
-				job.Event = func(nd ast.Node, ev func(ast.Expr) string) string {
-					if as, ok := nd.(*ast.AssignStmt); ok && len(as.Lhs) == 1 && len(as.Rhs) == 1 {
-						if id, ok := as.Lhs[0].(*ast.Ident); ok && id.Name == "outboundName" {
-							return "name=" + core.ExprStr(as.Rhs[0])
-						}
-					}
-					res := ""
-					ownCalls(nd, func(ce *ast.CallExpr, _ bool) {
-						if cal := core.Callee(info, ce); cal != nil && cal.Name() == "outboundToId" {
-							res = "use=" + core.ExprStr(ce.Args[0])
-						}
-					})
-					return res
-				}
-				for _, o := range job.Run() {
-					cur := ""
-					for _, evs := range o.Events {
-						if strings.HasPrefix(evs, "name=") {
-							cur = strings.TrimPrefix(evs, "name=")
-						}
-						if strings.HasPrefix(evs, "use=") {
-							u := strings.TrimPrefix(evs, "use=")
-							if u == "outboundName" {
-								nameVals[cur] = true
-							} else {
-								nameVals[u] = true
-							}
-						}
-					}
-				}
-				var nv []string
-				for k := range nameVals {
-					nv = append(nv, k)
-				}
-				sort.Strings(nv)
-				got := strings.Join(nv, "|")
-				want := "consts.OutboundLogicalOr.String()"
-				if last {
-					want = "outbound.Name"
-				}
-				if got != want {
-					okAll = false
-					detail = fmt.Sprintf(" — for last=%v the set is named %q, want %q", last, got, want)
-				}
-			}
-		}
-		n++
-		c.R.Checkf(rule, "multi-value-outbound@"+short, c.pos(rs.Pos()), okAll, "%s names every value's match set OR except the last, which carries the callback's outbound%s", short, detail)
+		n += checkEmitterNaming(c, rule, e, "control.RoutingMatcherBuilder.", "outboundToId", "outbound.Name")
 	}
 	c.R.Floor(rule+"/emitters", n, 10)
 }
@@ -997,4 +879,129 @@ func isBinLit(e ast.Expr, op token.Token, lit string) bool {
 	}
 	bl, ok := be.Y.(*ast.BasicLit)
 	return ok && bl.Value == lit
+}
+
+// checkEmitterNaming decides the OR/last naming discipline of one emitter:
+// a loop over `values` that appends one match set per value must name every
+// set OR except the last, which carries the callback's outbound/upstream name;
+// an emitter without such a loop passes the callback's name unchanged.
+func checkEmitterNaming(c *Ctx, rule string, e *core.Func, trim, idFunc, cbName string) int {
+	info := e.Info()
+	var rs *ast.RangeStmt
+	ast.Inspect(e.Body, func(m ast.Node) bool {
+		if r, ok := m.(*ast.RangeStmt); ok && core.ExprStr(r.X) == "values" && rs == nil {
+			has := false
+			ast.Inspect(r.Body, func(k ast.Node) bool {
+				if ce, ok := k.(*ast.CallExpr); ok {
+					if cal := core.Callee(info, ce); cal != nil && cal.Name() == idFunc {
+						has = true
+					}
+				}
+				return true
+			})
+			if has {
+				rs = r
+			}
+		}
+		return true
+	})
+	short := strings.TrimPrefix(e.Name, trim)
+	if rs == nil {
+		var calls []*ast.CallExpr
+		core.EachCall(e.Body, core.Deep, func(ce *ast.CallExpr) {
+			if cal := core.Callee(info, ce); cal != nil && cal.Name() == idFunc {
+				calls = append(calls, ce)
+			}
+		})
+		ok := len(calls) == 1 && core.ExprStr(calls[0].Args[0]) == cbName
+		c.R.Checkf(rule, "single-set-outbound@"+short, c.pos(e.Pos()), ok, "%s emits one match set carrying the callback's name (%s) unchanged", short, cbName)
+		return 1
+	}
+	eg := e.Graph()
+	var body *cfg.Block
+	heads := map[*cfg.Block]bool{}
+	for _, b := range eg.CFG.Blocks {
+		if b.Stmt == ast.Stmt(rs) {
+			switch b.Kind {
+			case cfg.KindRangeBody:
+				body = b
+			case cfg.KindRangeLoop:
+				heads[b] = true
+			}
+		}
+	}
+	lastPred := core.ExprStr(rs.Key) + " == len(values) - 1"
+	found := false
+	ast.Inspect(rs.Body, func(m ast.Node) bool {
+		if be, ok := m.(*ast.BinaryExpr); ok && core.ExprStr(be) == lastPred {
+			found = true
+		}
+		return true
+	})
+	okAll := found && body != nil
+	detail := ""
+	if !found {
+		detail = " — no test of the form `" + lastPred + "` in the loop"
+	}
+	if okAll {
+		for _, last := range []bool{false, true} {
+			nameVals := map[string]bool{}
+			var nameObj types.Object
+			job := &fdt.Job{F: e, Start: core.Point{B: body, I: 0}, StopAt: heads, Inputs: map[string]constant.Value{lastPred: constant.MakeBool(last)}}
+			job.Event = func(nd ast.Node, ev func(ast.Expr) string) string {
+				if as, ok := nd.(*ast.AssignStmt); ok && len(as.Lhs) == 1 && len(as.Rhs) == 1 {
+					if id, ok := as.Lhs[0].(*ast.Ident); ok {
+						if t := info.TypeOf(id); t != nil && t.String() == "string" {
+							if nameObj == nil || info.ObjectOf(id) == nameObj {
+								return "name:" + id.Name + "=" + core.ExprStr(as.Rhs[0])
+							}
+						}
+					}
+				}
+				res := ""
+				ownCalls(nd, func(ce *ast.CallExpr, _ bool) {
+					if cal := core.Callee(info, ce); cal != nil && cal.Name() == idFunc {
+						if rs.Value != nil && core.ExprStr(ce.Args[0]) == core.ExprStr(rs.Value) {
+							return // the rule operand (e.g. upstream(<name>)), not the set's outbound
+						}
+						res = "use=" + core.ExprStr(ce.Args[0])
+					}
+				})
+				return res
+			}
+			for _, o := range job.Run() {
+				cur := map[string]string{}
+				for _, evs := range o.Events {
+					if strings.HasPrefix(evs, "name:") {
+						kv := strings.SplitN(strings.TrimPrefix(evs, "name:"), "=", 2)
+						cur[kv[0]] = kv[1]
+					}
+					if strings.HasPrefix(evs, "use=") {
+						u := strings.TrimPrefix(evs, "use=")
+						if v, ok := cur[u]; ok {
+							nameVals[v] = true
+						} else {
+							nameVals[u] = true
+						}
+					}
+				}
+			}
+			var nv []string
+			for k := range nameVals {
+				nv = append(nv, k)
+			}
+			sort.Strings(nv)
+			got := strings.Join(nv, "|")
+			want := "consts.OutboundLogicalOr.String()"
+			if last {
+				want = cbName
+			}
+			if got != want {
+				okAll = false
+				detail = fmt.Sprintf(" — for last=%v the set is named %q, want %q", last, got, want)
+			}
+		}
+	}
+	c.R.Checkf(rule, "multi-value-outbound@"+short, c.pos(rs.Pos()), okAll, "%s names every value's match set OR except the last, which carries the callback's name%s", short, detail)
+	return 1
 }
